@@ -323,6 +323,39 @@ def h_with_context(eng):
     except DimensionalityError:
         leaked = False
     eng.prove(not leaked, "with_context-scoped")
+    # context parameters given to the decorator reach the context, also around wraps / check
+    nn = eng.real("nn")
+    eng.assume(nn > 0)
+
+    @ureg.with_context("sp", n=nn)
+    def g(q):
+        return q.to("hertz")
+
+    eng.prove(Eq(g(q).magnitude, 299792458 / (x * nn)), "with_context-parameters-forwarded")
+    seen = []
+
+    @ureg.with_context("sp", n=nn)
+    @ureg.wraps("hertz", ("hertz",))
+    def h(f):
+        seen.append(f)
+        return f
+
+    r = h(q)
+    eng.prove(len(seen) == 1 and Eq(seen[0], 299792458 / (x * nn)), "with_context+wraps-magnitude")
+    eng.prove(Eq(r.to("hertz").magnitude, 299792458 / (x * nn)), "with_context+wraps-return")
+
+    @ureg.with_context("sp", n=nn)
+    @ureg.check("[length]")
+    def k(a):
+        return a.to("hertz")
+
+    eng.prove(Eq(k(q).magnitude, 299792458 / (x * nn)), "with_context+check")
+    try:
+        q.to("hertz")
+        leaked = True
+    except DimensionalityError:
+        leaked = False
+    eng.prove(not leaked, "with_context-parameters-scoped")
 
 
 MIN_DISCHARGED = {"H17.wraps": 1500, "H17.check": 60, "H17.arity": 10}
